@@ -10,7 +10,10 @@ Where the documented behaviour holds only under a hypothesis, the hypothesis is 
 shows that it cannot be dropped (`…_witness`).  Three such hypotheses of the pinned tree (two or more
 sub-queries for the rank order; no select path through a scalar; one `reflect.Kind` per sort key) were
 defects; the repository repairs removed them and the model follows the repaired code:
-`C06_rank_order`, `C06_select` / `C06_select_total`, `C06_cmp_numeric` carry no such hypothesis.
+`C06_rank_order` (every composite query), `C06_select` / `C06_select_total`, `C06_cmp_numeric` carry no
+such hypothesis.  The hybrid-score order is stated for COMPOSITE queries (the property: "For composite
+queries …"); a plain ranking query at the root keeps the order of its index (`C06_plain_order`), and
+`C06_plain_negative_weight_witness` shows that the two orders differ for a negative weight.
 -/
 import SemaModel.C06.Lemmas
 namespace Sema.C06
@@ -26,49 +29,61 @@ at most once):
 * the ranked part names each point once, and names exactly the points of the id set that some
   sub-query ranked;
 * each ranked point carries `c₁ + c₂ + … + cₙ`, its contributions in sub-query order;
-* with two or more sub-queries the ranked part is ordered by hybrid score, highest first (a single
-  sub-query is handed on as it came, `C06_merge_single`; `Shard.SearchPoints` orders the final list
-  whatever the number of sub-queries: `C06_rank_order`).
+* the ranked part is ordered by hybrid score, highest first — for exactly one sub-query too (the
+  shortcut of `searchParallel` sorts), and for negative weights.
 
 The first three clauses re-establish the hypotheses, so the statement composes over query trees of any
 depth. -/
 theorem C06_merge {S : Type} (add : S → S → S) (le : S → S → Prop)
-    (sorter : List (Res S) → List (Res S))
+    (sorter stable : List (Res S) → List (Res S))
     (hperm : ∀ l, (sorter l).Perm l) (hsorted : ∀ l, (sorter l).Pairwise (fun a b => le b.hybrid a.hybrid))
+    (hstperm : ∀ l, (stable l).Perm l) (hstsorted : ∀ l, (stable l).Pairwise (fun a b => le b.hybrid a.hybrid))
     (isOr : Bool) (subs : List (SubResult S))
     (hwf : ∀ s ∈ subs, ∀ r ∈ s.res, r.id ∈ s.set) (hnd : ∀ s ∈ subs, (s.res.map (·.id)).Nodup) :
-    let out := searchParallel add sorter isOr subs
+    let out := searchParallel add sorter stable isOr subs
     let all := (subs.map (·.res)).flatten
     (∀ id, id ∈ out.set ↔ if isOr then ∃ s ∈ subs, id ∈ s.set else subs ≠ [] ∧ ∀ s ∈ subs, id ∈ s.set) ∧
     (out.res.map (·.id)).Nodup ∧
     (∀ id, id ∈ out.res.map (·.id) ↔ id ∈ out.set ∧ id ∈ all.map (·.id)) ∧
     (∀ r ∈ out.res, some r.hybrid = sumLeft add (contribs all r.id)) ∧
-    (subs.length ≠ 1 → out.res.Pairwise (fun a b => le b.hybrid a.hybrid)) :=
-  merge_any add le sorter hperm hsorted isOr subs hwf hnd
+    out.res.Pairwise (fun a b => le b.hybrid a.hybrid) :=
+  merge_any add le sorter stable hperm hsorted hstperm hstsorted isOr subs hwf hnd
 
-/-- a single sub-query is passed through untouched -/
-theorem C06_merge_single {S : Type} (add : S → S → S) (sorter : List (Res S) → List (Res S)) (isOr : Bool)
-    (one : SubResult S) : searchParallel add sorter isOr [one] = one := rfl
+/-- a single sub-query: its id set as it is, its ranked results through the stable sort; when they are
+in hybrid-score order already (weight ≥ 0) nothing moves -/
+theorem C06_merge_single {S : Type} (add : S → S → S) (le : S → S → Prop) (sorter stable : List (Res S) → List (Res S))
+    (hstable : ∀ l, l.Pairwise (fun a b => le b.hybrid a.hybrid) → stable l = l) (isOr : Bool) (one : SubResult S) :
+    searchParallel add sorter stable isOr [one] = ⟨one.set, stable one.res⟩ ∧
+    (one.res.Pairwise (fun a b => le b.hybrid a.hybrid) → searchParallel add sorter stable isOr [one] = one) := by
+  refine ⟨rfl, fun h => ?_⟩
+  show (⟨one.set, stable one.res⟩ : SubResult S) = one
+  rw [hstable _ h]
 
-/-- `C06_rank_order`.  Whatever the index search returned — a plain ranking query, a composite with
-ONE sub-query, with many, any weights (negative ones included), any nesting — a request without
+/-- `C06_rank_order`.  **Every composite query** — `_and` / `_or` at the root with ONE sub-query or
+many, any weights (negative ones included), any nesting, whatever the sub-queries returned — without
 explicit sort keys comes back with the ranked rows first, highest hybrid score first, and the rows
-matched only by filters after them.  (`searchParallel` still passes a single sub-query through
-unsorted, `C06_merge_single`; `Shard.SearchPoints` orders what it gets with a stable sort.)
-No hypothesis on the number of sub-queries or on the sub-result. -/
-theorem C06_rank_order {S : Type} (le : S → S → Prop) (docOf : Id → Doc)
-    (rankSorter : List (Res S) → List (Res S))
-    (hsorted : ∀ l, (rankSorter l).Pairwise (fun a b => le b.hybrid a.hybrid))
-    (sorter : List (Row S) → List (Row S)) (repaired : Bool) (r : SubResult S) (rq : Request)
+matched only by filters after them, on every page.  No hypothesis on the number of sub-queries or on
+the sub-results (not even well-formedness). -/
+theorem C06_rank_order {S : Type} (add : S → S → S) (le : S → S → Prop)
+    (sorter stable : List (Res S) → List (Res S))
+    (hsorted : ∀ l, (sorter l).Pairwise (fun a b => le b.hybrid a.hybrid))
+    (hstsorted : ∀ l, (stable l).Pairwise (fun a b => le b.hybrid a.hybrid))
+    (docOf : Id → Doc) (rowSorter : List (Row S) → List (Row S)) (repaired : Bool)
+    (t : QTree S) (hroot : t.isComposite = true) (rq : Request)
     (hs : rq.sort = []) (p : List (Row S))
-    (h : searchPoints docOf rankSorter sorter repaired r rq = .rows p) :
+    (h : searchPoints docOf rowSorter repaired (evalTree add sorter stable t) rq = .rows p) :
     p.Pairwise (fun a b => rankRel le a.hybrid b.hybrid) := by
+  have hr : (evalTree add sorter stable t).res.Pairwise (fun a b => le b.hybrid a.hybrid) := by
+    cases t with
+    | leaf r => simp [QTree.isComposite] at hroot
+    | node isOr ts => simp only [evalTree]; exact searchParallel_sorted add le sorter stable hsorted hstsorted isOr _
+  generalize evalTree add sorter stable t = r at *
   unfold searchPoints at h
-  cases hfull : fullRows docOf rankSorter sorter r rq with
+  cases hfull : fullRows docOf rowSorter r rq with
   | error e => simp [hfull] at h
   | ok rows =>
     have hrows : rows.Pairwise (fun a b => rankRel le a.hybrid b.hybrid) :=
-      fullRows_rank_pairwise le docOf rankSorter hsorted sorter r rq hs rows hfull
+      fullRows_rank_pairwise le docOf rowSorter r hr rq hs rows hfull
     simp only [hfull] at h
     have hsub : p.Sublist rows := by
       cases repaired
@@ -86,8 +101,8 @@ theorem C06_rank_order {S : Type} (le : S → S → Prop) (docOf : Id → Doc)
           exact goSlice_sublist _ _ _ _ hp
     exact List.Pairwise.sublist hsub hrows
 
-/-- the sort in `SearchPoints` is stable: it does not move anything when the index search returned
-its results in order already (weights ≥ 0, merged results).  Such a sorter exists: insertion sort. -/
+/-- the sort in the shortcut is stable: it does not move anything when the sub-query returned its
+results in order already (weights ≥ 0).  Such a sorter exists: insertion sort. -/
 theorem C06_rank_sorter_exists (key : Int → Int) :
     let c := fun (a b : Res Int) => cmpInt (-(key a.hybrid)) (-(key b.hybrid))
     (∀ l, (isort c l).Perm l) ∧ (∀ l, (isort c l).Pairwise (fun a b => key b.hybrid ≤ key a.hybrid)) ∧
@@ -108,20 +123,53 @@ def outcomeRows {S : Type} : Outcome S → Option (List (Id × Option S))
   | .rows p => some (p.map (fun x => (x.id, x.hybrid)))
   | _ => none
 
+/-- `C06_plain_order`.  A plain (not composite) query at the root: the answer lists the ranked results
+exactly as the index returned them — same order, same hybrid scores — followed by the points matched by
+the filter only, ascending.  So a text query is answered by score, highest first, with hybrid score
+`weight · score`, and a vector query by distance, lowest first, with hybrid score `−weight · distance`,
+whatever the sign of the weight (C03–C05 say what the index returns). -/
+theorem C06_plain_order {S : Type} (docOf : Id → Doc) (rowSorter : List (Row S) → List (Row S))
+    (add : S → S → S) (sorter stable : List (Res S) → List (Res S))
+    (r : SubResult S) (rq : Request) (hs : rq.sort = []) (rows : List (Row S))
+    (h : fullRows docOf rowSorter (evalTree add sorter stable (.leaf r)) rq = .ok rows) :
+    ∃ unranked : List Id,
+      rows.map (fun x => (x.id, x.hybrid)) =
+        r.res.map (fun x => (x.id, some x.hybrid)) ++ unranked.map (fun id => (id, none)) ∧
+      unranked = sortAsc ((dedup r.set).filter (fun id => !(r.res.any (fun x => x.id == id)))) := by
+  simp only [evalTree] at h
+  unfold fullRows at h
+  cases hm : mapExcept (fun (e : Entry S) => (shape rq (docOf e.id)).map (fun d => (⟨e.id, e.hybrid, d⟩ : Row S)))
+      (backfill r) with
+  | error e => simp [hm] at h
+  | ok rows0 =>
+    simp only [hm, hs, List.isEmpty_nil, if_true, Except.ok.injEq] at h
+    subst h
+    refine ⟨_, ?_, rfl⟩
+    have := mapExcept_map _ (fun (e : Entry S) => (e.id, e.hybrid)) (fun (x : Row S) => (x.id, x.hybrid))
+      (fun e row he => by
+        obtain ⟨h1, h2, _⟩ := row_of_entry docOf rq e row he
+        show (row.id, row.hybrid) = (e.id, e.hybrid)
+        rw [h1, h2]) _ _ hm
+    rw [this]
+    simp [backfill, List.map_append, List.map_map, Function.comp_def]
+
 set_option maxRecDepth 8192 in
-/-- the witness of the former finding `rank-order-single-subquery-negative-weight`: `_or` with one
-ranking sub-query of negative weight.  `searchParallel` passes it through lowest hybrid first, for
-every sorter it might use; the request as a whole now comes back highest first. -/
-theorem C06_single_sub_repaired :
-    let leaf : SubResult Int := ⟨[1, 2], [⟨1, -2⟩, ⟨2, -1⟩]⟩
-    (∀ s1 : List (Res Int) → List (Res Int),
-      ¬ (searchParallel (· + ·) s1 true [leaf]).res.Pairwise (fun a b => b.hybrid ≤ a.hybrid)) ∧
-    (∀ s1 : List (Res Int) → List (Res Int),
-      outcomeRows (searchPoints (fun _ => []) (isort (fun a b => cmpInt (-a.hybrid) (-b.hybrid))) (fun l => l) true
-        (searchParallel (· + ·) s1 true [leaf]) ⟨[], [], 0, 0⟩) = some [(2, some (-1)), (1, some (-2))]) := by
-  refine ⟨?_, ?_⟩
-  · intro s1; rw [C06_merge_single]; simp
-  · intro s1; rw [C06_merge_single]; decide
+/-- **the scoping is forced**: for a negative weight the order of the index and the hybrid-score order
+differ.  A vector query of weight −1 finds point 1 at distance 1 and point 2 at distance 2 (hybrid
+scores `1`, `2`).  As a plain query it is answered nearest first — lowest hybrid score first; wrapped in
+`_or […]` it is answered highest hybrid score first.  (`searchParallel` without the sort in its shortcut
+would hand the single sub-query on as it came: the former finding
+`rank-order-single-subquery-negative-weight`.) -/
+theorem C06_plain_negative_weight_witness :
+    let srt := isort (fun (a b : Res Int) => cmpInt (-a.hybrid) (-b.hybrid))
+    let hits : List (Id × Int) := [(1, 1), (2, 2)]                        -- (point, distance), nearest first
+    let leaf : SubResult Int := ⟨[1, 2], hits.map (fun h => ⟨h.1, -((-1) * h.2)⟩)⟩   -- hybrid = −weight · distance
+    outcomeRows (searchPoints (fun _ => []) (fun l => l) true (evalTree (· + ·) srt srt (.leaf leaf)) ⟨[], [], 0, 0⟩)
+      = some [(1, some 1), (2, some 2)] ∧
+    outcomeRows (searchPoints (fun _ => []) (fun l => l) true
+        (evalTree (· + ·) srt srt (.node true (.cons (.leaf leaf) .nil))) ⟨[], [], 0, 0⟩)
+      = some [(2, some 2), (1, some 1)] := by
+  refine ⟨by decide, by decide⟩
 
 /-- back-fill: the ranked results first, in their order; then exactly the remaining ids of the id
 set, ascending; every id of the set once. -/
@@ -220,7 +268,7 @@ theorem selectDoc_star (d : Doc) (post : List (List String)) :
       | some v =>
         simp only [hq] at h ⊢
         cases hsn : setNested acc p v with
-        | error e => simp [hsn] at h
+        | error e => simp only [hsn] at h ⊢; exact ih acc m0 h hrs
         | ok acc' => simp only [hsn] at h ⊢; exact ih acc' m0 h hrs
 
 /-- `"*"` returns the document: when the star is reached the answer has exactly the top-level fields
@@ -248,9 +296,9 @@ no empty segment list, every stored document yields its data (`shape` succeeds),
 `Shard.SearchPoints` does not return a select error whatever the other returned points store. -/
 theorem C06_select_total {S : Type} (rq : Request) (hne : ∀ p ∈ rq.select, p ≠ []) :
     (∀ d : Doc, ∃ m, shape rq d = .ok m) ∧
-    (∀ (docOf : Id → Doc) (rankSorter : List (Res S) → List (Res S)) (sorter : List (Row S) → List (Row S))
+    (∀ (docOf : Id → Doc) (sorter : List (Row S) → List (Row S))
        (repaired : Bool) (r : SubResult S),
-       (match searchPoints docOf rankSorter sorter repaired r rq with | .selectError => False | _ => True)) := by
+       (match searchPoints docOf sorter repaired r rq with | .selectError => False | _ => True)) := by
   have hshape : ∀ d : Doc, ∃ m, shape rq d = .ok m := by
     intro d
     unfold shape
@@ -288,11 +336,11 @@ theorem C06_select_total {S : Type} (rq : Request) (hne : ∀ p ∈ rq.select, p
       · exact ⟨[], rfl⟩
       · exact ⟨d, rfl⟩
   refine ⟨hshape, ?_⟩
-  intro docOf rankSorter sorter repaired r
+  intro docOf sorter repaired r
   unfold searchPoints fullRows
   obtain ⟨rows, hrows, _⟩ := mapExcept_ok
     (fun (e : Entry S) => (shape rq (docOf e.id)).map (fun d => (⟨e.id, e.hybrid, d⟩ : Row S)))
-    (backfill ⟨r.set, rankSorter r.res⟩)
+    (backfill r)
     (fun e _ => by obtain ⟨m, hm⟩ := hshape (docOf e.id); exact ⟨⟨e.id, e.hybrid, m⟩, by rw [hm]; rfl⟩)
   rw [hrows]
   simp only
@@ -500,17 +548,23 @@ a well-formed result (ranked ids in the id set, each once); the documented id se
 `_or`, intersection for `_and`); and for every point the documented hybrid score (`hybridSpec`: the
 nested sum, in sub-query order, of the contributions of the sub-queries that rank it; not ranked where
 no sub-query ranks it or the point is outside the composite's set). -/
-theorem C06_tree {S : Type} (add : S → S → S) (le : S → S → Prop) (sorter : List (Res S) → List (Res S))
+theorem C06_tree {S : Type} (add : S → S → S) (le : S → S → Prop) (sorter stable : List (Res S) → List (Res S))
     (hperm : ∀ l, (sorter l).Perm l) (hsorted : ∀ l, (sorter l).Pairwise (fun a b => le b.hybrid a.hybrid))
+    (hstperm : ∀ l, (stable l).Perm l) (hstsorted : ∀ l, (stable l).Pairwise (fun a b => le b.hybrid a.hybrid))
     (t : QTree S) (h : leavesWF t) :
-    let out := evalTree add sorter t
+    let out := evalTree add sorter stable t
     (∀ x ∈ out.res, x.id ∈ out.set) ∧ (out.res.map (·.id)).Nodup ∧
     (∀ id, id ∈ out.set ↔ inSetB t id = true) ∧
     (∀ id, hybridOf out.res id = hybridSpec add t id) ∧
-    (∀ x ∈ out.res, hybridSpec add t x.id = some x.hybrid) := by
+    (∀ x ∈ out.res, hybridSpec add t x.id = some x.hybrid) ∧
+    (t.isComposite = true → out.res.Pairwise (fun a b => le b.hybrid a.hybrid)) := by
   intro out
-  obtain ⟨⟨w1, w2⟩, hset, hhyb⟩ := evalTree_ok add le sorter hperm hsorted t h
-  exact ⟨w1, w2, hset, hhyb, fun x hx => by rw [← hhyb x.id]; exact hybridOf_of_mem w2 hx⟩
+  obtain ⟨⟨w1, w2⟩, hset, hhyb⟩ := evalTree_ok add le sorter stable hperm hsorted hstperm hstsorted t h
+  refine ⟨w1, w2, hset, hhyb, fun x hx => by rw [← hhyb x.id]; exact hybridOf_of_mem w2 hx, ?_⟩
+  intro hroot
+  cases t with
+  | leaf r => simp [QTree.isComposite] at hroot
+  | node isOr ts => exact searchParallel_sorted add le sorter stable hsorted hstsorted isOr _
 
 /-- `C06_answer`.  The whole answer of `Shard.SearchPoints` before the offset / limit slice, for every
 query tree with well-formed leaves, every select list and every sort list:
@@ -518,30 +572,30 @@ query tree with well-formed leaves, every select list and every sort list:
 * each point of the documented id set exactly once, nothing else;
 * each row carries the documented hybrid score (`none` = matched by filters only) and exactly the
   selected data of its stored document;
-* without sort keys: ranked rows first, highest hybrid score first, filter-only rows after them;
+* without sort keys: the ranked rows first, in the order `indexManager.Search` returned them, the
+  filter-only rows after them — for a composite query that is highest hybrid score first, for a plain
+  query the order of its index (`C06_plain_order`);
   with sort keys: ordered by the multi-key comparator (`C06_missing_last`, `C06_sort_numeric` say what
   that means). -/
-theorem C06_answer {S : Type} (add : S → S → S) (le : S → S → Prop) (sorter : List (Res S) → List (Res S))
+theorem C06_answer {S : Type} (add : S → S → S) (le : S → S → Prop) (sorter stable : List (Res S) → List (Res S))
     (hperm : ∀ l, (sorter l).Perm l) (hsorted : ∀ l, (sorter l).Pairwise (fun a b => le b.hybrid a.hybrid))
-    (rankSorter : List (Res S) → List (Res S))
-    (hrperm : ∀ l, (rankSorter l).Perm l) (hrsorted : ∀ l, (rankSorter l).Pairwise (fun a b => le b.hybrid a.hybrid))
+    (hstperm : ∀ l, (stable l).Perm l) (hstsorted : ∀ l, (stable l).Pairwise (fun a b => le b.hybrid a.hybrid))
     (rq : Request) (rowSorter : List (Row S) → List (Row S))
     (hsperm : ∀ l, (rowSorter l).Perm l)
     (hssorted : ∀ l, (rowSorter l).Pairwise (fun a b => sortCmp rq.sort a.data b.data ≤ 0))
     (docOf : Id → Doc) (hne : ∀ p ∈ rq.select, p ≠ [])
     (t : QTree S) (h : leavesWF t) :
-    ∃ rows, fullRows docOf rankSorter rowSorter (evalTree add sorter t) rq = .ok rows ∧
+    ∃ rows, fullRows docOf rowSorter (evalTree add sorter stable t) rq = .ok rows ∧
       (rows.map (·.id)).Nodup ∧ (∀ id, id ∈ rows.map (·.id) ↔ inSetB t id = true) ∧
       (∀ row ∈ rows, row.hybrid = hybridSpec add t row.id ∧ shape rq (docOf row.id) = .ok row.data) ∧
-      (rq.sort = [] → rows.Pairwise (fun a b => rankRel le a.hybrid b.hybrid)) ∧
+      (rq.sort = [] → rows.map (fun x => (x.id, x.hybrid)) =
+        (backfill (evalTree add sorter stable t)).map (fun e => (e.id, e.hybrid))) ∧
+      (rq.sort = [] → t.isComposite = true → rows.Pairwise (fun a b => rankRel le a.hybrid b.hybrid)) ∧
       (rq.sort ≠ [] → rows.Pairwise (fun a b => sortCmp rq.sort a.data b.data ≤ 0)) := by
-  obtain ⟨w1, w2, hset, hhyb, _⟩ := C06_tree add le sorter hperm hsorted t h
-  generalize evalTree add sorter t = o at *
-  have hp := hrperm o.res
-  have hn : ((rankSorter o.res).map (·.id)).Nodup := ((hp.map (·.id)).nodup_iff).mpr w2
-  have hwf : ∀ x ∈ rankSorter o.res, x.id ∈ o.set := fun x hx => w1 x (hp.mem_iff.mp hx)
-  obtain ⟨unranked, hB, _, hun, hBmem, hBnd⟩ := C06_backfill (⟨o.set, rankSorter o.res⟩ : SubResult S) hn hwf
-  generalize hBdef : backfill (⟨o.set, rankSorter o.res⟩ : SubResult S) = B at *
+  obtain ⟨w1, w2, hset, hhyb, _, hord⟩ := C06_tree add le sorter stable hperm hsorted hstperm hstsorted t h
+  generalize evalTree add sorter stable t = o at *
+  obtain ⟨unranked, hB, _, hun, hBmem, hBnd⟩ := C06_backfill o w2 w1
+  generalize hBdef : backfill o = B at *
   -- every back-filled entry carries the documented hybrid score
   have hBh : ∀ e ∈ B, e.hybrid = hybridSpec add t e.id := by
     intro e he
@@ -549,49 +603,55 @@ theorem C06_answer {S : Type} (add : S → S → S) (le : S → S → Prop) (sor
     rcases List.mem_append.mp he with he | he
     · obtain ⟨x, hx, rfl⟩ := List.mem_map.mp he
       show some x.hybrid = hybridSpec add t x.id
-      rw [← hhyb x.id, ← hybridOf_perm hp w2 x.id, hybridOf_of_mem hn hx]
+      rw [← hhyb x.id, hybridOf_of_mem w2 hx]
     · obtain ⟨id, hid, rfl⟩ := List.mem_map.mp he
       show none = hybridSpec add t id
-      have hnot : id ∉ (rankSorter o.res).map (·.id) := ((hun id).mp hid).2
-      rw [← hhyb id, ← hybridOf_perm hp w2 id, (hybridOf_none_of_not_mem hnot).1]
+      have hnot : id ∉ o.res.map (·.id) := ((hun id).mp hid).2
+      rw [← hhyb id, (hybridOf_none_of_not_mem hnot).1]
   obtain ⟨hshape, _⟩ := C06_select_total (S := S) rq hne
   obtain ⟨rows0, hrows0, _⟩ := mapExcept_ok
     (fun (e : Entry S) => (shape rq (docOf e.id)).map (fun d => (⟨e.id, e.hybrid, d⟩ : Row S))) B
     (fun e _ => by obtain ⟨m, hm⟩ := hshape (docOf e.id); exact ⟨⟨e.id, e.hybrid, m⟩, by show Except.map _ _ = _; rw [hm]; rfl⟩)
   have hids : rows0.map (·.id) = B.map (·.id) :=
     mapExcept_map _ (·.id) (·.id) (fun e row he => (row_of_entry docOf rq e row he).1) B rows0 hrows0
+  have hpairs : rows0.map (fun x => (x.id, x.hybrid)) = B.map (fun e => (e.id, e.hybrid)) :=
+    mapExcept_map _ (fun (e : Entry S) => (e.id, e.hybrid)) (fun (x : Row S) => (x.id, x.hybrid))
+      (fun e row he => by
+        obtain ⟨h1, h2, _⟩ := row_of_entry docOf rq e row he
+        show (row.id, row.hybrid) = (e.id, e.hybrid)
+        rw [h1, h2]) B rows0 hrows0
   have hrow0 : ∀ row ∈ rows0, row.hybrid = hybridSpec add t row.id ∧ shape rq (docOf row.id) = .ok row.data := by
     intro row hr
     obtain ⟨e, he, hfe⟩ := mapExcept_mem _ B rows0 hrows0 row hr
     obtain ⟨h1, h2, h3⟩ := row_of_entry docOf rq e row hfe
     exact ⟨by rw [h2, h1]; exact hBh e he, by rw [h1]; exact h3⟩
-  have hfull : fullRows docOf rankSorter rowSorter o rq = .ok (if rq.sort.isEmpty then rows0 else rowSorter rows0) := by
+  have hfull : fullRows docOf rowSorter o rq = .ok (if rq.sort.isEmpty then rows0 else rowSorter rows0) := by
     unfold fullRows
     rw [hBdef, hrows0]
   by_cases hs : rq.sort = []
-  · refine ⟨rows0, by rw [hfull]; simp [hs], ?_, ?_, hrow0, ?_, fun h => absurd hs h⟩
+  · refine ⟨rows0, by rw [hfull]; simp [hs], ?_, ?_, hrow0, fun _ => hpairs, ?_, fun h => absurd hs h⟩
     · rw [hids]; exact hBnd
     · intro id; rw [hids, hBmem id]; exact hset id
-    · intro _
-      exact fullRows_rank_pairwise le docOf rankSorter hrsorted rowSorter o rq hs rows0 (by rw [hfull]; simp [hs])
+    · intro _ hroot
+      exact fullRows_rank_pairwise le docOf rowSorter o (hord hroot) rq hs rows0 (by rw [hfull]; simp [hs])
   · have hse : rq.sort.isEmpty = false := by
       cases hq : rq.sort with
       | nil => exact absurd hq hs
       | cons a l => rfl
     have hperm' := hsperm rows0
-    refine ⟨rowSorter rows0, by rw [hfull]; simp [hse], ?_, ?_, ?_, fun h => absurd h hs, fun _ => hssorted rows0⟩
+    refine ⟨rowSorter rows0, by rw [hfull]; simp [hse], ?_, ?_, ?_, fun h => absurd h hs, fun h => absurd h hs, fun _ => hssorted rows0⟩
     · rw [((hperm'.map (·.id)).nodup_iff), hids]; exact hBnd
     · intro id; rw [((hperm'.map (·.id)).mem_iff), hids, hBmem id]; exact hset id
     · intro row hr; exact hrow0 row (hperm'.mem_iff.mp hr)
 
 /-- and the request returns the page `[offset, offset + limit)` of that answer (all of it from `offset`
 on when `limit = 0`) — repaired slice expression, no overflow hypothesis -/
-theorem C06_search_page {S : Type} (docOf : Id → Doc) (rankSorter : List (Res S) → List (Res S))
+theorem C06_search_page {S : Type} (docOf : Id → Doc)
     (rowSorter : List (Row S) → List (Row S)) (r : SubResult S) (rq : Request) (rows : List (Row S))
-    (hfull : fullRows docOf rankSorter rowSorter r rq = .ok rows)
+    (hfull : fullRows docOf rowSorter r rq = .ok rows)
     (off lim : Nat) (ho : rq.off = off) (hl : rq.lim = lim)
     (hoff : off < 2 ^ 63) (hlim : lim < 2 ^ 63) (hlen : rows.length < 2 ^ 63) :
-    outcomePage (searchPoints docOf rankSorter rowSorter true r rq)
+    outcomePage (searchPoints docOf rowSorter true r rq)
       = some ((rows.drop off).take (if lim = 0 then rows.length else lim)) := by
   unfold searchPoints
   rw [hfull]
@@ -610,20 +670,21 @@ def exSortRes (l : List (Res Int)) : List (Res Int) := isort (fun a b => cmpInt 
 example : exSubs.length ≠ 1 ∧ (∀ s ∈ exSubs, ∀ r ∈ s.res, r.id ∈ s.set) ∧ ∀ s ∈ exSubs, (s.res.map (·.id)).Nodup := by decide
 
 /-- every hypothesis of `C06_merge` at once (the sorter is an insertion sort on `Int` scores) -/
-example : ((searchParallel (· + ·) exSortRes true exSubs).res.map (·.id)).Nodup := by
-  have h := C06_merge (· + ·) (· ≤ ·) exSortRes (fun l => isort_perm _ l)
-    (fun l => (isort_sorted (tpc_of_key (fun r : Res Int => -r.hybrid)) l).imp (by
+example : ((searchParallel (· + ·) exSortRes exSortRes true exSubs).res.map (·.id)).Nodup := by
+  have hso : ∀ l, (exSortRes l).Pairwise (fun a b => b.hybrid ≤ a.hybrid) :=
+    fun l => (isort_sorted (tpc_of_key (fun r : Res Int => -r.hybrid)) l).imp (by
       intro a b hab
       have := (cmpInt_le (-a.hybrid) (-b.hybrid)).mp hab
       show b.hybrid ≤ a.hybrid
-      omega))
+      omega)
+  have h := C06_merge (· + ·) (· ≤ ·) exSortRes exSortRes (fun l => isort_perm _ l) hso (fun l => isort_perm _ l) hso
     true exSubs (by decide) (by decide)
   exact h.2.1
 
-example : ((searchParallel (· + ·) exSortRes false exSubs).set, (searchParallel (· + ·) exSortRes false exSubs).res.map (fun r => (r.id, r.hybrid)))
+example : ((searchParallel (· + ·) exSortRes exSortRes false exSubs).set, (searchParallel (· + ·) exSortRes exSortRes false exSubs).res.map (fun r => (r.id, r.hybrid)))
     = ([2, 3], [(3, 7), (2, -2)]) := by decide
 
-example : (backfill (searchParallel (· + ·) exSortRes true exSubs)).map (fun e => (e.id, e.hybrid))
+example : (backfill (searchParallel (· + ·) exSortRes exSortRes true exSubs)).map (fun e => (e.id, e.hybrid))
     = [(3, some 7), (1, some 5), (2, some (-2)), (4, none), (9, none)] := by decide
 
 /-- a stored document with a nested map and a scalar, colliding select paths -/
@@ -640,10 +701,12 @@ example : (match selectDoc exDoc [["a", "b"], ["n", "x"], ["z", "q"], ["q"], ["n
     | .error _ => False) := by
   simp [selectDoc, queryVal, lookup, exDoc, setNested, put, access, accessVal]
 
-/-- the hypothesis of `C06_rank_order` is satisfiable together with stability: `C06_rank_sorter_exists`;
-a leaf in its own order with a negative weight, a filter-only point behind it -/
-example : outcomeRows (searchPoints (fun _ => []) (isort (fun a b => cmpInt (-a.hybrid) (-b.hybrid))) (fun l => l) true
-    (⟨[1, 2, 3, 7], [⟨1, -2⟩, ⟨3, -2⟩, ⟨2, -1⟩]⟩ : SubResult Int) ⟨[], [], 0, 0⟩)
+/-- the hypotheses of `C06_rank_order` are satisfiable together with stability (`C06_rank_sorter_exists`);
+a composite root over a single leaf in its own order with a negative weight and a tie, a filter-only
+point behind it -/
+example : outcomeRows (searchPoints (fun _ => []) (fun l => l) true
+    (evalTree (· + ·) exSortRes exSortRes
+      (.node false (.cons (.leaf (⟨[1, 2, 3, 7], [⟨1, -2⟩, ⟨3, -2⟩, ⟨2, -1⟩]⟩ : SubResult Int)) .nil))) ⟨[], [], 0, 0⟩)
     = some [(2, some (-1)), (1, some (-2)), (3, some (-2)), (7, none)] := by decide
 
 set_option maxRecDepth 8192 in
@@ -673,8 +736,8 @@ def exTree : QTree Int :=
 scores as nested sums `((−3) + 1) + (−1)`, point 1 ranked by the first sub-query only, point 9 by none -/
 example : leavesWF exTree := by simp [exTree, leavesWF, forestWF]
 
-example : (evalTree (· + ·) exSortRes exTree).set = [1, 2, 4, 9] ∧
-    ((evalTree (· + ·) exSortRes exTree).res.map (fun r => (r.id, r.hybrid))) = [(1, 5), (4, 2), (2, -3)] ∧
+example : (evalTree (· + ·) exSortRes exSortRes exTree).set = [1, 2, 4, 9] ∧
+    ((evalTree (· + ·) exSortRes exSortRes exTree).res.map (fun r => (r.id, r.hybrid))) = [(1, 5), (4, 2), (2, -3)] ∧
     [1, 2, 3, 4, 5, 9].map (inSetB exTree) = [true, true, false, true, false, true] ∧
     [1, 2, 3, 4, 9].map (hybridSpec (· + ·) exTree) = [some 5, some (-3), none, some 2, none] := by decide
 
